@@ -389,7 +389,8 @@ class ModuleFinder:
 
     def _extend_from_pth_files(self) -> None:
         for path in self.search_paths:
-            for item in self._contents(path):
+            # Like `site`, handle the `.pth` files of a directory in sorted order, not in listing order.
+            for item in sorted(self._contents(path)):
                 if item.suffix == ".pth":
                     for directory in _handle_pth_file(item):
                         if scan := directory.always_scan_for:
